@@ -877,6 +877,14 @@ func (cs *State) handleMsg(mi msgInfo) {
 		// the peer is sending us CatchupCommit precommits.
 		// We could make note of this and help filter in broadcastHasVoteMessage().
 
+	case *VoteSetMaj23Message:
+		// A peer's +2/3 claim. It comes through the peer queue (see Reactor.Receive) so that
+		// it is in the WAL before it takes effect: votes that the vote sets admit only
+		// because of it are admitted again when the WAL is replayed.
+		if msg.Height == cs.Height {
+			err = cs.Votes.SetPeerMaj23(msg.Round, msg.Type, peerID, msg.BlockID)
+		}
+
 	default:
 		cs.Logger.Error("unknown msg type", "type", fmt.Sprintf("%T", msg))
 		return
